@@ -16,7 +16,7 @@ TEXT = {
         'technique': 'Verus contract on the projection odometer + Kani harness on read_site with a pmf stub (bounded)',
     },
     'C03': {
-        'level_text': 'Structure only: validation of targets (larger / zero / different dimensionality rejected, complete over usize for two axes), Spectrum::project is the linear operator new[k\'] += x[k] * prod_j H(k\'_j; n_j, k_j, m_j) over all source cells (Kani, bounded shapes, H = stub), and ProjectIter is the row-major odometer (Verus, unbounded). That H is the hypergeometric pmf, finiteness, and the algebraic laws are NOT decided.',
+        'level_text': 'Structure only: validation of targets (larger / zero / different dimensionality rejected, complete over usize for two axes; Count::try_from_shape = Some(shape - 1) iff no axis has length zero proved by Verus for every dimensionality), Spectrum::project is the linear operator new[k\'] += x[k] * prod_j H(k\'_j; n_j, k_j, m_j) over all source cells (Kani, bounded shapes, H = stub), and ProjectIter is the row-major odometer (Verus, unbounded). That H is the hypergeometric pmf, finiteness, and the algebraic laws are NOT decided.',
         'design_ref': 'DESIGN.md 5/C03',
         'level_note': _K + 'The numerical content of C03 is out of reach of both verifiers (f64 exp/ln).',
         'technique': 'Kani full-domain validation harnesses + wiring harness with pmf stub (bounded) + Verus odometer contract',
@@ -52,10 +52,10 @@ TEXT = {
         'technique': 'Kani full-domain loop-free harnesses + Verus function contract',
     },
     'C09': {
-        'level_text': 'Column-order independence only: read_site depends on the input columns only through the column->population table, on six tables incl. unselected columns and both column orders (bounded: 3 columns, 2 populations). First-appearance id assignment, sample-list parsing and the error cases live behind hash maps and closures and are not decided.',
+        'level_text': 'Column-order independence only: read_site depends on the input columns only through the column->population table, on six tables incl. unselected columns and both column orders (bounded: 3 columns, 2 populations). Verus (unbounded, IndexSet assumed by a stated model): population::Map::insert gives a label seen before its old id and changes nothing, and gives a new label the next id in order of first appearance. The rest of the id assignment (get, get_or_insert, sample::Map::from_iter), sample-list parsing and the error cases live behind hash maps and closures and are not decided.',
         'design_ref': 'DESIGN.md 5/C09',
-        'level_note': _K + 'sample::Map / population::Map are assumed by contract.',
-        'technique': 'Kani harness on read_site with a symbolic column->population table (bounded)',
+        'level_note': _K + 'sample::Map is assumed by contract; indexmap::IndexSet is an assumed model in V-popmap.',
+        'technique': 'Kani harness on read_site with a symbolic column->population table (bounded) + Verus contract on population::Map::insert over an assumed IndexSet model',
     },
     'C11': {
         'level_text': 'read_site is run from an arbitrary pre-state of every reused accumulator (counts, totals, skipped list, projection scratch buffer) and its postcondition mentions the current record only, so no history of any length can influence a record (bounded in width: 3 columns, 2 populations); Verus: started from a zeroed buffer ProjectIter is a function of (totals, counts, target) only.',
@@ -94,7 +94,7 @@ TEXT = {
         'technique': 'Verus contract with a ghost byte log and sticky failure flag + Kani harness with a chunked BufRead',
     },
     'C19': {
-        'level_text': 'Verus proofs for all shapes, axes, positions and call histories: RemovedAxis get/len/index; Array::get_axis is Some iff axis and position are in range and the view addresses exactly the elements with a-th index i (theorem_axis_view_element); view::Iter yields the element of row-major rank k at call k, then None forever, with exact size_hint (representation invariant); AxisIter yields one view per position, then None, exact size_hint; flat<->multi-index bijection as mathematics. Kani (bounded shapes) for flat_index / index_from_flat / get / iter_indices and end-to-end axis views.',
+        'level_text': 'Verus proofs for all shapes, axes, positions and call histories: RemovedAxis get/len/index; Array::get_axis is Some iff axis and position are in range and the view addresses exactly the elements with a-th index i (theorem_axis_view_element); view::Iter yields the element of row-major rank k at call k, then None forever, with exact size_hint (representation invariant); AxisIter yields one view per position, then None, exact size_hint; Array::index_axis cannot panic exactly when axis and position are in range and returns the get_axis view; IndicesIter::size_hint = total - index without underflow under the invariant established by from_shape/new; flat<->multi-index bijection as mathematics. Kani (bounded shapes) for flat_index / index_from_flat / get / iter_indices and end-to-end axis views.',
         'design_ref': 'DESIGN.md 5/C19',
         'level_note': _K + 'Array representation invariant assumed in Verus, checked by Kani on listed shapes; elements()/as_ref contracts assumed in two units.',
         'technique': 'Verus contracts (representation invariants, recursive odometer proof) + Kani harnesses (bounded)',
